@@ -30,6 +30,8 @@
 // corresponds to a set of DNS Resource Records.
 #[cfg(feature = "logging")]
 use crate::log::{debug, error, trace};
+#[cfg(feature = "verif-hooks")]
+use crate::verif::PktInfoUdpSocket;
 use crate::{
     current_time_millis,
     dns_cache::{DnsCache, IpType},
@@ -46,8 +48,6 @@ use flume::{bounded, Sender, TrySendError};
 use if_addrs::{IfAddr, Interface};
 use mio::{event::Source, net::UdpSocket as MioUdpSocket, Interest, Poll, Registry, Token};
 use socket2::Domain;
-#[cfg(feature = "verif-hooks")]
-use crate::verif::PktInfoUdpSocket;
 #[cfg(not(feature = "verif-hooks"))]
 use socket_pktinfo::PktInfoUdpSocket;
 use std::{
@@ -1443,8 +1443,9 @@ impl Zeroconf {
                 Duration::from_millis(millis)
             });
             #[cfg(feature = "verif-hooks")]
-            let timeout =
-                crate::verif::gate(now, earliest_timer, timeout, |l| self.verif_snapshot(l));
+            let timeout = crate::verif::gate(now, earliest_timer, timeout, receiver.len(), |l| {
+                self.verif_snapshot(l)
+            });
 
             // Process incoming packets, command events and optional timeout.
             events.clear();
